@@ -440,6 +440,22 @@ def drv_electre_near(tier, rng):
     return groups
 
 
+def drv_electre_many(tier, rng):
+    """listing-order twins with many alternatives (70: beyond any word-sized bookkeeping) on a coarse grid, so that tie groups
+    that are strict subsets of the remaining alternatives occur at every level; only the relation between the twins is judged"""
+    groups = []
+    for t in range(2 if tier == 'quick' else 12):
+        m = 2
+        req, f = electre_req(rng, 3, m, [0, 1, 2, 3], 0)
+        cs = [c['id'] for c in req['criteria']]
+        req['knownAlternatives'] = [{'id': 'm%02d' % i, 'criteria': {c: UNIT * rng.choice([0, 1, 2, 3]) for c in cs}} for i in range(70)]
+        req['choseToMake'] = [a['id'] for a in req['knownAlternatives']]
+        g = [base_case(r, sa=f[2], sb=f[3], failprop='C05', methodref=False, hook=False, pin=True, group={'id': 'x', 'rel': 'perm', 'p': 'C06'})
+             for r in perm_twins(rng, req, 'C06', 2)]
+        groups.append(g)
+    return groups
+
+
 def drv_electre_dom(tier, rng):
     """dominated neighbours (C06): a few alternatives on a 0..10 grid with veto-carrying criteria whose differences often
     equal a threshold exactly, plus 'shadows' - copies of an alternative made slightly worse on some criteria - so that
@@ -852,6 +868,14 @@ def conc_pool(rng):
     base = pipeline.gen_data(rng, 'majorityHeuristic', n=3, m=3, extra=1)
     rej = [m[1] for m in list(service.bias_mutations(rng, base)) + list(service.mutations(rng, base)) if m[2] == 'reject']
     pool[0].extend(rng.sample(rej, min(8, len(rej))))
+    # several requests rejected for the same kind of reason with different particulars (each answer names its own culprit)
+    for k in range(6):
+        r = copy.deepcopy(base)
+        if k % 2:
+            r['choseToMake'] = r['choseToMake'] + ['nobody%d' % k]
+        else:
+            r['methodParameters']['currentChoice'] = 'stranger%d' % k
+        pool[0].append(r)
     return pool, bad
 
 
@@ -1125,7 +1149,7 @@ FAMILIES = {
         'mc': 'MC_ElectreE',
         'mc_cfg': {'quick': 'MC_ElectreE_quick.cfg', 'thorough': 'MC_ElectreE_thorough.cfg'},
         'mc_sample': {'quick': 600, 'thorough': 20000}, 'mc_workers': 12, 'mc_timeout': {'thorough': 5400},
-        'mode': 'decide', 'trace': 'Trace_Decide', 'drivers': [drv_electre, drv_electre_near], 'chunk_lines': 80, 'trace_chunks': 12,
+        'mode': 'decide', 'trace': 'Trace_Decide', 'drivers': [drv_electre, drv_electre_near, drv_electre_many], 'chunk_lines': 80, 'trace_chunks': 12,
     },
     'electre_dom': {
         'mode': 'decide', 'trace': 'Trace_Decide', 'drivers': [drv_electre_dom], 'screen': 'c06',
